@@ -789,6 +789,35 @@ func c14midExchange(c *Ctx, p *c14pair, fromB bool) {
 	p.waitNoConn(6 * time.Second)
 	time.Sleep(30 * time.Millisecond)
 	for _, o := range ones {
+		notified := func() int {
+			n := 0
+			for _, m := range p.rec.at(o.h) {
+				if _, _, about := c14classify(m, o.target); about {
+					n++
+				}
+			}
+			return n
+		}
+		// what the holder's own node still records for it
+		isHeld := func() bool {
+			held := false
+			if info, err := p.a.ProcessInfo(o.h); err == nil {
+				for _, x := range info.LinksPID {
+					held = held || x == o.target
+				}
+				for _, x := range info.MonitorsPID {
+					held = held || x == o.target
+				}
+			}
+			return held
+		}
+		// the connection leaves the table first, RouteNodeDown (cleanup and notifications) runs after that in the same
+		// goroutine: on a loaded machine "no connection" can be observed well before the cleanup. A relation that is
+		// still recorded without a notification gets time; one that was really left behind stays for ever.
+		if o.err == nil {
+			waitUntil(4*time.Second, func() bool { return notified() > 0 || !isHeld() })
+			time.Sleep(5 * time.Millisecond)
+		}
 		n := 0
 		for _, m := range p.rec.at(o.h) {
 			if _, reason, about := c14classify(m, o.target); about {
@@ -798,16 +827,7 @@ func c14midExchange(c *Ctx, p *c14pair, fromB bool) {
 				}
 			}
 		}
-		// what the holder's own node still records for it
-		held := false
-		if info, err := p.a.ProcessInfo(o.h); err == nil {
-			for _, x := range info.LinksPID {
-				held = held || x == o.target
-			}
-			for _, x := range info.MonitorsPID {
-				held = held || x == o.target
-			}
-		}
+		held := isHeld()
 		kind := "monitor"
 		if o.link {
 			kind = "link"
@@ -896,18 +916,27 @@ func c14raceWitness(c *Ctx, p *c14pair, link bool) {
 		return
 	}
 	time.Sleep(30 * time.Millisecond)
-	n := 0
-	for _, m := range p.rec.at(h) {
-		if _, _, about := c14classify(m, tp); about {
-			n++
+	count := func() (int, bool) {
+		n := 0
+		for _, m := range p.rec.at(h) {
+			if _, _, about := c14classify(m, tp); about {
+				n++
+			}
 		}
-	}
-	held := false
-	if info, err := p.a.ProcessInfo(h); err == nil {
-		for _, x := range append(info.LinksPID, info.MonitorsPID...) {
-			held = held || x == tp
+		held := false
+		if info, err := p.a.ProcessInfo(h); err == nil {
+			for _, x := range append(info.LinksPID, info.MonitorsPID...) {
+				held = held || x == tp
+			}
 		}
+		return n, held
 	}
+	if relErr == nil {
+		// a granted request is either notified or no longer recorded once the node-down has run (which may lag)
+		waitUntil(4*time.Second, func() bool { n, held := count(); return n > 0 || !held })
+		time.Sleep(5 * time.Millisecond)
+	}
+	n, held := count()
 	r.Count("witness.link-vs-node-down-race")
 	r.Case(fmt.Sprintf("race-witness/%v", link), true)
 	if relErr == nil && n == 0 && held {
